@@ -307,6 +307,23 @@ func similarName(want string, cands []string) int {
 	if n == 1 {
 		return hit
 	}
+	if n == 0 && len(w) >= 4 {
+		// unique candidate sharing a prefix of at least four characters
+		for i, c := range cands {
+			cn := norm(c)
+			k := 0
+			for k < len(cn) && k < len(w) && cn[k] == w[k] {
+				k++
+			}
+			if k >= 4 {
+				hit = i
+				n++
+			}
+		}
+		if n == 1 {
+			return hit
+		}
+	}
 	return -1
 }
 
